@@ -1,6 +1,6 @@
 """C15 - least-squares and factorisation solvers return the optimum they claim (small part: the
-HMF update steps).  computechi2 (SVD), pcomp / HMF.reorder (eigh), pca_solve and the k-means
-seeding are LAPACK / C code behind FFI and are NOT claimed."""
+HMF update steps and computechi2 for 2-parameter systems).  pcomp / HMF.reorder (eigh), pca_solve and the
+k-means seeding are LAPACK / C code behind FFI and are NOT claimed."""
 from fractions import Fraction
 import numpy as np
 import z3
@@ -12,12 +12,14 @@ from .common import Obligation
 PID = 'C15'
 
 META = {
-    'functions_encoded': ['pydl.pydlspec2d.spec1d.HMF.__init__', 'HMF.astep', 'HMF.gstep', 'HMF.astepnn', 'HMF.gstepnn', 'HMF.normbase',
+    'functions_encoded': ['pydl.pydlutils.math.computechi2 (all properties)', 'pydl.pydlspec2d.spec1d.HMF.__init__', 'HMF.astep', 'HMF.gstep', 'HMF.astepnn', 'HMF.gstepnn', 'HMF.normbase',
                           'HMF.model', 'HMF.resid'],
-    'stubs': ['numpy.linalg.solve -> exact rational solve (contract of LAPACK gesv)'],
+    'stubs': ['numpy.linalg.solve -> exact rational solve (contract of LAPACK gesv)',
+              'numpy.linalg.svd -> contract stub: the harness names the decomposition of the matrix it built (rotation x diagonal), the stub '
+              'verifies U diag(w) Vh == input, orthonormality, sign and order before handing it out'],
     'assumptions': ['the spectra matrix is symbolic; the other factor and the inverse variances are concrete exact rationals (the solve needs a concrete matrix)',
                     'floats are exact reals'],
-    'outside_bounds': 'computechi2 (numpy.linalg.svd), pcomp and HMF.reorder (eigh), pca_solve, k-means seeding and seed determinism, '
+    'outside_bounds': 'computechi2 with more than 2 parameters or rank-deficient systems; pcomp and HMF.reorder (eigh), pca_solve, k-means seeding and seed determinism, '
                       '"caller\'s arrays not modified": deciding computation is LAPACK/C behind FFI or an aliasing fact - not claimed',
 }
 
@@ -123,6 +125,61 @@ def ob_normbase(K, M):
     return Obligation('HMF.normbase K=%d M=%d' % (K, M), fn, bounds='every non-zero component matrix', solver_timeout_ms=120000)
 
 
+def ob_chi2(extra_zero_weight):
+    """computechi2 on a 2-parameter system given through its decomposition: M = diag(sigma) V^T with V a
+    rotation (rational parametrisation by t) and sigma0 >= sigma1 > 0 symbolic, weights symbolic positive,
+    optionally a third datum with zero weight.  Every full-rank 2x2 weighted system has this form."""
+    def fn(ctx):
+        from pydl.pydlutils.math import computechi2
+        t = ctx.real('t')
+        s0, s1 = ctx.real('sigma0'), ctx.real('sigma1')
+        q0, q1 = ctx.real('sqivar0'), ctx.real('sqivar1')
+        b = ctx.reals('b', 3 if extra_zero_weight else 2)
+        ctx.add(z3.And(zt(s0) >= zt(s1), zt(s1) > 0, zt(q0) > 0, zt(q1) > 0, zt(t) >= -2, zt(t) <= 2))
+        ctx.hints = [z3.And(zt(t) == z3.RealVal('1/2'), zt(q0) == 1, zt(q1) == 2, zt(s0) == zt(s1), zt(s0) == z3.RealVal('1/536870912'))]
+        d = {'fn': 'chi2', 'extra': extra_zero_weight}
+        ctx.detail = d
+        den = R(1) + t * t
+        c, s = (R(1) - t * t) / den, (R(2) * t) / den
+        V = [[c, -s], [s, c]]                      # columns are the right singular vectors
+        Mw = [[s0 * V[0][0], s0 * V[1][0]], [s1 * V[0][1], s1 * V[1][1]]]        # diag(sigma) V^T
+        A = [[Mw[0][0] / q0, Mw[0][1] / q0], [Mw[1][0] / q1, Mw[1][1] / q1]]
+        sq = [q0, q1]
+        if extra_zero_weight:
+            A.append([R(Fraction(3)), R(Fraction(-7, 2))])
+            sq.append(R(Fraction(0)))
+        # decomposition of mm = M^T M = V diag(sigma^2) V^T, handed to the svd stub, which verifies it
+        U = symnp.rarray([[V[0][0], V[0][1]], [V[1][0], V[1][1]]])
+        Vh = symnp.rarray([[V[0][0], V[1][0]], [V[0][1], V[1][1]]])
+        symnp.SVD_HINTS[:] = [(U, [s0 * s0, s1 * s1], Vh)]
+        try:
+            fit = computechi2(symnp.rarray(b), symnp.rarray(sq), symnp.rarray(A))
+            acoeff, chi2, yfit, dof, covar, var = fit.acoeff, fit.chi2, fit.yfit, fit.dof, fit.covar, fit.var
+        finally:
+            symnp.SVD_HINTS[:] = []
+        n = len(b)
+        M = [[A[i][j] * sq[i] for j in range(2)] for i in range(n)]
+        bw = [b[i] * sq[i] for i in range(n)]
+        mm = [[sum((M[i][a_] * M[i][b_] for i in range(n)), R(Fraction(0))) for b_ in range(2)] for a_ in range(2)]
+        for a_ in range(2):
+            lhs = sum((mm[a_][j] * R.lift(acoeff[j]) for j in range(2)), R(Fraction(0)))
+            rhs = sum((M[i][a_] * bw[i] for i in range(n)), R(Fraction(0)))
+            ctx.require(zt(lhs) == zt(rhs), 'computechi2: coefficients satisfy the weighted normal equations (unique solution)', dict(d, row=a_))
+        for i in range(n):
+            ctx.require(zt(R.lift(yfit[i])) == zt(sum((A[i][j] * R.lift(acoeff[j]) for j in range(2)), R(Fraction(0)))),
+                        'computechi2: fitted values = A x', dict(d, i=i))
+        res = sum(((sum((M[i][j] * R.lift(acoeff[j]) for j in range(2)), R(Fraction(0))) - bw[i]) ** 2 for i in range(n)), R(Fraction(0)))
+        ctx.require(zt(R.lift(chi2)) == zt(res), 'computechi2: chi-square of the weighted residuals', d)
+        ctx.require(int(dof) == 2 - 2, 'computechi2: degrees of freedom = data with positive weight - parameters', dict(d, dof=str(dof)))
+        for a_ in range(2):
+            for b_ in range(2):
+                prod = sum((R.lift(covar[a_, j]) * mm[j][b_] for j in range(2)), R(Fraction(0)))
+                ctx.require(zt(prod) == (1 if a_ == b_ else 0), 'computechi2: covariance is the inverse of A^T W A', dict(d, i=a_, j=b_))
+            ctx.require(zt(R.lift(var[a_])) == zt(R.lift(covar[a_, a_])), 'computechi2: variances are the diagonal of the covariance', dict(d, i=a_))
+    return Obligation('computechi2 2 parameters extra_zero_weight=%d' % extra_zero_weight, fn, solver_timeout_ms=120000,
+                      bounds='every full-rank 2x2 weighted system (rotation parameter |t| <= 2, every sigma0 >= sigma1 > 0, every positive weight, every b)')
+
+
 def obligations(tier, seed):
     q = tier == 'quick'
     obs = []
@@ -133,6 +190,8 @@ def obligations(tier, seed):
             obs.append(ob_gstep(N, M, K, eps))
         obs.append(ob_nn(N, M, K, None))
         obs.append(ob_nn(N, M, K, F(1, 2)))
+    obs.append(ob_chi2(False))
+    obs.append(ob_chi2(True))
     obs.append(ob_normbase(1, 3))
     obs.append(ob_normbase(2, 2))
     return obs
@@ -158,6 +217,36 @@ def replay(rec):
         h.g = g
         r = h.normbase()
         return bool(np.abs(((g / r[:, None]) ** 2).mean(1) - 1).max() > 1e-9)
+    if fn == 'chi2':
+        from pydl.pydlutils.math import computechi2
+        t, s0, s1 = _f(inp.get('t', 0)), _f(inp.get('sigma0', 1)), _f(inp.get('sigma1', 1))
+        q = [_f(inp.get('sqivar0', 1)), _f(inp.get('sqivar1', 1))]
+        n = 3 if d['extra'] else 2
+        b = np.array([_f(inp.get('b%d' % i, 0)) for i in range(n)])
+        c, s = (1 - t * t) / (1 + t * t), 2 * t / (1 + t * t)
+        Mw = np.array([[s0 * c, s0 * s], [-s1 * s, s1 * c]])
+        A = Mw / np.array(q)[:, None]
+        sq = np.array(q)
+        if d['extra']:
+            A = np.vstack([A, [3.0, -3.5]])
+            sq = np.append(sq, 0.0)
+        fit = computechi2(b, sq, A)
+        M = A * sq[:, None]
+        mm = M.T @ M
+        scale = np.abs(mm).max()
+        # independent oracle: closed-form inverse of the 2x2 normal matrix
+        det = mm[0, 0] * mm[1, 1] - mm[0, 1] * mm[1, 0]
+        inv = np.array([[mm[1, 1], -mm[0, 1]], [-mm[1, 0], mm[0, 0]]]) / det
+        if np.abs(fit.covar - inv).max() > 1e-6 * np.abs(inv).max():
+            return True
+        if np.abs(np.diag(fit.covar) - fit.var).max() > 0:
+            return True
+        xref = inv @ (M.T @ (b * sq))
+        if np.abs(fit.acoeff - xref).max() > 1e-6 * max(1e-300, np.abs(xref).max()):
+            return True
+        if np.abs(fit.yfit - A @ xref).max() > 1e-6 * max(1e-300, np.abs(A @ xref).max()):
+            return True
+        return int(fit.dof) != int((sq > 0).sum()) - 2
     N, M, K = d['N'], d['M'], d['K']
     a, g, w = _mats(N, M, K)
     a, g, w = (np.array([[float(v) for v in row] for row in m]) for m in (a, g, w))
